@@ -815,7 +815,12 @@ func childTypes(fr *mp4.Fragment) string {
 func encodeFile(c *runner.Ctx, f *mp4.File, sw bool, hint int) (out []byte, err error, pi *runner.PanicInfo) {
 	pi = c.Guard(func() {
 		if sw {
-			w := bits.NewFixedSliceWriter(hint + 4096)
+			// a caller-owned, recycled (not zero-filled) destination, as NewFixedSliceWriterFromSlice allows
+			store := make([]byte, hint+4096)
+			for i := range store {
+				store[i] = 0xA5
+			}
+			w := bits.NewFixedSliceWriterFromSlice(store)
 			err = f.EncodeSW(w)
 			out = w.Bytes()
 		} else {
